@@ -621,11 +621,11 @@ _APB = "patch = header + T (platform concrete) + one command + EOF_; ids, offset
 H("C03", "patch", "c03_apply_delete_data", bounds=_APB + "D at block 2, 2 blocks, in a 640-byte dat3 of category 0a / ex1 / chunk 02 / win32", **_AP)
 H("C03", "patch", "c03_apply_expand_data", bounds=_APB + "E at block 1, 3 blocks, ps4, data file does not exist yet", **_AP)
 H("C03", "patch", "c03_apply_delete_data_across_end", bounds=_APB + "D at block 2, 4 blocks, ps3, file of 384 bytes (range starts inside, ends behind the end)", **_AP)
-# NOT registered (harness code kept in harness/patch.rs; measured 2026-09-29): the commands whose payload owns heap data --
-# A (Vec block_data), H (Vec header_data), F (String path) -- still lose their constants (a String built into a hand-written
-# SqpkOperation::FileOperation literal comes back with a symbolic length: 69 of 70 unwindings in the unreachable arm), so
-# c03_apply_add_data*, c03_apply_add_file_*, c03_apply_delete_file, c03_apply_make_dir_tree, c03_apply_header_update_* and
-# c04_create_* end without a verdict (10-12 GB); two T commands in one patch (c03_apply_second_target_info_wins): out of memory.
+# NOT registered (harness code kept in harness/patch.rs; measured 2026-09-29): c03_apply_add_data*, c03_apply_add_file_*,
+# c03_apply_delete_file, c03_apply_make_dir_tree, c03_apply_header_update_*, c03_apply_second_target_info_wins were each killed
+# at the 10 GB cap when run six at a time; c03_apply_add_data alone: symbolic execution 455 s, then the SAT back end ran out of
+# memory beyond 32 GB; c04_create_* lose the constants of the path String
+# (borrowed through three enum levels by the derived BinWrite) and end without a verdict.  DESIGN.md section 4, C03.
 # C15: the file names patching writes (closures inside ZiPatch::apply) agree with Repository::dat_filename at these instances
 H("C15", "patch", "c03_apply_expand_data", bounds=_APB + "E creates /g/sqpack/ex1/0a0102.ps4.dat3: category, expansion, chunk, platform tag and data-file number as the read side names them", **_AP)
 H("C15", "patch", "c03_apply_delete_data", bounds=_APB + "D rewrites /g/sqpack/ex1/0a0102.win32.dat3 (and no other file)", **_AP)
